@@ -355,8 +355,9 @@ def isotopeDensity (rhoEl mIso mEl : α) : α := rhoEl * (mIso / mEl)
 
 /-! ## `neutron_composite_sld` (nsf.py 1134-1230) -/
 
-/-- `_sum_piece`: `(num_atoms, molar_mass, b_c, sigma_s)`; unlike `neutron_scattering` there is
-    no `has_sld` test – an atom without data makes `ones*None` raise (`none`) -/
+/-- `_sum_piece`: `(num_atoms, molar_mass, b_c, sigma_s)`; `none` = `return None` on an atom
+    whose `has_sld()` is false (fixes/composite-missing-data.patch: the same test as in
+    `neutron_scattering`) -/
 def pieceStep (t : Tbl α) (w : α) (acc : Option (Acc α)) (e : Atom × α) : Option (Acc α) :=
   match acc, t.neutron e.1 with
   | some a, some r =>
@@ -374,6 +375,8 @@ def dotSumC (ws : List α) (ps : List (Cx α)) : Cx α :=
   (List.zipWith Cx.smul ws ps).foldl Cx.add (0, 0)
 
 inductive CompOut (α : Type) where
+  /-- `(None, None, None)`: the SLD of some material is unknown -/
+  | missing
   /-- `return 0, 0, 0` -/
   | zeros
   | ok (re im inc : α)
@@ -399,29 +402,39 @@ def compositeCompute (parts : List (Acc α)) (weights : List α) (density : α) 
   let sldInc := n * bI * lit 10
   .ok sldRe sldIm sldInc
 
-/-- `neutron_composite_sld(materials, wavelength)(weights, density)`; `none` = building the
-    calculator raises (a material contains an atom without neutron data) -/
+/-- `neutron_composite_sld(materials, wavelength)(weights, density)` -/
 def compositeSld (t : Tbl α) (materials : List (List (Atom × α))) (w : α) (weights : List α)
-    (density : α) : Option (CompOut α) :=
-  (materials.mapM (sumPiece t w)).map fun parts => compositeCompute parts weights density
+    (density : α) : CompOut α :=
+  match materials.mapM (sumPiece t w) with
+  | none => .missing
+  | some parts => compositeCompute parts weights density
 
 inductive CompOutV (α : Type) where
+  | missing
   | zeros
   | ok (s : List (α × α × α))
 
+/-- the numbers of a result (`missing` has none; never used on it) -/
 def CompOut.tuple : CompOut α → α × α × α
+  | .missing => (0, 0, 0)
   | .zeros => (0, 0, 0)
   | .ok a b c => (a, b, c)
 
 /-- vector wavelength: `is_multi`, `weights[:, None]`, `np.sum(…, axis=0)` – pointwise in the
     wavelength; the zero test is on scalars and taken once -/
 def compositeSldV (t : Tbl α) (materials : List (List (Atom × α))) (ws : List α) (weights : List α)
-    (density : α) : Option (CompOutV α) :=
-  if materials.any (fun m => m.any fun e => (t.neutron e.1).isNone) then none else
+    (density : α) : CompOutV α :=
+  if materials.any (fun m => m.any fun e => (t.neutron e.1).isNone) then .missing else
   let molarMass := dotSum weights (materials.map (molarMassOf t))
-  if molarMass * density == 0 then some .zeros else
-  some (.ok (ws.map fun w =>
-    (compositeCompute (materials.map (sumsAt t w)) weights density).tuple))
+  if molarMass * density == 0 then .zeros else
+  .ok (ws.map fun w =>
+    (compositeCompute (materials.map (sumsAt t w)) weights density).tuple)
+
+/-- the `i`-th entry of a vector result -/
+def CompOutV.get? : CompOutV α → Nat → Option (CompOut α)
+  | .missing, _ => some .missing
+  | .zeros, _ => some .zeros
+  | .ok l, i => (l[i]?).map fun x => .ok x.1 x.2.1 x.2.2
 
 /-! ## isotope substitution (formulas.py 616-640 `_isotope_substitution`) -/
 
